@@ -64,6 +64,7 @@ def run_prop(ctx, prop, rule, min_cells=None, require=None):
         "outcomes_debug": a2["outcomes"],
         "chain_checks": a1["chain_checks"] + a2["chain_checks"],
         "rust_asan_sweep": asan_info,
+        "hostile_caller_state": {"release": a1.get("hostile_caller_state"), "debug": a2.get("hostile_caller_state")},
         "causality_blur_measured_ns": blurs,
         "c_library": dict(info, vectors=n3, sanitizers="clang ASan+UBSan, -fno-sanitize-recover=all, canaries around result structs"),
     }
